@@ -251,6 +251,83 @@ fn render_attr(it: &Value) -> Vec<String> {
     vec![text]
 }
 
+/// MC_Inherit: interface k is `Ik`, one per line, in module M; layouts: declaration order, reverse order, odd / even
+/// interfaces in two files.  Returns the files and, per file, the interface number declared on each row (0 = none).
+fn render_inherit(it: &Value) -> (Vec<String>, Vec<Vec<usize>>) {
+    let ifs = it["ifs"].as_array().cloned().unwrap_or_default();
+    let line = |k: usize| -> String {
+        let i = &ifs[k - 1];
+        let bases: Vec<String> = i["bases"].as_array().cloned().unwrap_or_default().iter().map(|b| format!("I{}", b.as_u64().unwrap_or(0))).collect();
+        let ops: Vec<String> = strs(&i["ops"]).iter().map(|o| format!("{o}()")).collect();
+        format!("interface I{k}{}{} {{ {} }}", if bases.is_empty() { "" } else { " : " }, bases.join(", "), ops.join(" "))
+    };
+    let n = ifs.len();
+    let groups: Vec<Vec<usize>> = match it["lay"].as_str().unwrap_or("fwd") {
+        "rev" => vec![(1..=n).rev().collect()],
+        "split" => vec![(1..=n).filter(|k| k % 2 == 1).collect(), (1..=n).filter(|k| k % 2 == 0).collect()],
+        _ => vec![(1..=n).collect()],
+    };
+    let mut files = Vec::new();
+    let mut rows = Vec::new();
+    for g in groups {
+        let mut text = String::from("module M\n");
+        let mut r = vec![0, 0]; // row 0 does not exist, row 1 is the module line
+        for k in g {
+            text.push_str(&line(k));
+            text.push('\n');
+            r.push(k);
+        }
+        files.push(text);
+        rows.push(r);
+    }
+    (files, rows)
+}
+
+/// what the library says about the hierarchy of an accepted MC_Inherit program, compared with the model's closure
+fn check_inherit(case: &Value, state: &slicec::compilation_state::CompilationState) -> Option<Value> {
+    use slicec::grammar::{Interface, NamedSymbol, ScopedSymbol};
+    let n = case["item"]["ifs"].as_array().map(|a| a.len()).unwrap_or(0);
+    let num = |id: &str| -> u64 { id.rsplit("::I").next().and_then(|x| x.parse().ok()).unwrap_or(0) };
+    for k in 1..=n {
+        let Ok(i) = state.ast.find_element::<Interface>(&format!("M::I{k}")) else {
+            return Some(json!({"kind": "mismatch", "what": "an interface cannot be retrieved by its scoped name", "interface": k}));
+        };
+        let mut bases: Vec<u64> = i.all_base_interfaces().iter().map(|b| num(&b.parser_scoped_identifier())).collect();
+        let nb = bases.len();
+        bases.sort();
+        bases.dedup();
+        let mut want: Vec<u64> = case["anc"][k - 1].as_array().cloned().unwrap_or_default().iter().filter_map(|x| x.as_u64()).collect();
+        want.sort();
+        if bases != want || nb != want.len() {
+            return Some(mismatch("base interfaces (transitive closure, each once)", json!({"interface": k, "bases": want}), json!({"bases": bases, "listed": nb})));
+        }
+        let mut inh: Vec<(u64, String)> = i
+            .all_inherited_operations()
+            .iter()
+            .map(|o| (num(&o.parser_scope().to_owned()), o.identifier().to_owned()))
+            .collect();
+        let ni = inh.len();
+        inh.sort();
+        inh.dedup();
+        let mut want_ops: Vec<(u64, String)> = case["inherited"][k - 1]
+            .as_array()
+            .cloned()
+            .unwrap_or_default()
+            .iter()
+            .map(|p| (p[0].as_u64().unwrap_or(0), p[1].as_str().unwrap_or("").to_owned()))
+            .collect();
+        want_ops.sort();
+        if inh != want_ops || ni != want_ops.len() {
+            return Some(mismatch("inherited operations (every operation of every ancestor, each once)", json!({"interface": k, "ops": want_ops}), json!({"ops": inh, "listed": ni})));
+        }
+        let own = i.operations().len();
+        if i.all_operations().len() != own + want_ops.len() {
+            return Some(mismatch("all operations = own + inherited", json!(own + want_ops.len()), json!(i.all_operations().len())));
+        }
+    }
+    None
+}
+
 /// the program of a case of MC_Rules
 pub fn render(case: &Value) -> Option<Vec<String>> {
     let it = &case["item"];
@@ -261,6 +338,7 @@ pub fn render(case: &Value) -> Option<Vec<String>> {
         "stream" => render_stream(it),
         "names" => render_names(it),
         "attrs" => render_attr(it),
+        "inherit" => render_inherit(it).0,
         _ => return None,
     })
 }
@@ -273,6 +351,8 @@ impl Family for Rules {
         let key = hash_str(&rendered.to_string());
         let state = slicec::compile_from_strings(&refs, None);
         let nrows: Vec<usize> = texts.iter().map(|t| t.lines().count() + 1).collect();
+        let is_inherit = case["fam"] == "inherit";
+        let structural = if is_inherit && !state.diagnostics.has_errors() { check_inherit(case, &state) } else { None };
         let diags = state.into_diagnostics(&Default::default());
         let errors: Vec<&slicec::diagnostics::Diagnostic> = diags.iter().filter(|d| d.level() == DiagnosticLevel::Error).collect();
         let mut codes: Vec<String> = errors.iter().map(|d| d.code().to_owned()).collect();
@@ -281,6 +361,23 @@ impl Family for Rules {
         let mut want = strs(&case["violations"]);
         want.sort();
         let fail = (|| {
+            if structural.is_some() {
+                return structural.clone();
+            }
+            if is_inherit {
+                // an E011 points at an operation that the model says redeclares an inherited one
+                let (_, rows) = render_inherit(&case["item"]);
+                for d in errors.iter().filter(|d| d.code() == "E011") {
+                    let Some(sp) = d.span() else { continue };
+                    let fi: usize = sp.file.strip_prefix("string-").and_then(|x| x.parse().ok()).unwrap_or(usize::MAX);
+                    let k = rows.get(fi).and_then(|r| r.get(sp.start.row)).copied().unwrap_or(0);
+                    let name: String = texts.get(fi).and_then(|t| t.lines().nth(sp.start.row - 1)).map(|l| l.chars().skip(sp.start.col - 1).take_while(|c| c.is_alphanumeric()).collect()).unwrap_or_default();
+                    let listed = k >= 1 && strs(&case["redeclared"][k - 1]).contains(&name);
+                    if !listed {
+                        return Some(json!({"kind": "mismatch", "what": "E011 points at an operation that redeclares nothing", "interface": k, "operation": name}));
+                    }
+                }
+            }
             if want.is_empty() && !codes.is_empty() {
                 return Some(mismatch("a program that satisfies every rule was rejected", json!([]), json!(codes)));
             }
